@@ -3,6 +3,7 @@ import os
 import re
 import shutil
 import subprocess
+import tempfile
 import time
 
 VERIF = os.path.dirname(os.path.dirname(os.path.abspath(__file__)))
@@ -128,8 +129,8 @@ def run(spec, cfg=None, workdir=None, workers=1, env=None, timeout=1200, extra=(
     cwd = cwd or TLA_DIR
     if workdir is None:
         workdir = os.path.join(VERIF, ".work", "tlc")
-    meta = os.path.join(workdir, "meta_%s_%d_%d" % (os.path.basename(cfg or spec).replace(".", "_"), os.getpid(), int(time.time() * 1000) % 100000000))
-    os.makedirs(meta, exist_ok=True)
+    os.makedirs(workdir, exist_ok=True)
+    meta = tempfile.mkdtemp(prefix="meta_%s_" % os.path.basename(cfg or spec).replace(".", "_"), dir=workdir)
     cmd = ["java", "-XX:+UseParallelGC", "-Xmx" + heap, "-Xss16m"]
     if dfs:
         cmd.append("-Dtlc2.tool.queue.IStateQueue=StateDeque")
